@@ -508,22 +508,31 @@ def rule_G(ctx):
     fn['Obs'] = O
     fn['ENUCoords'] = P
     fn['__globals__'].update({'Obs': O, 'ENUCoords': P})
-    EPOCH0 = (datetime.datetime(2021, 6, 10, 8, 0, 0) - datetime.datetime(1970, 1, 1)).total_seconds()
+    EPOCH_DEFAULT = (datetime.datetime(2021, 6, 10, 8, 0, 0) - datetime.datetime(1970, 1, 1)).total_seconds()
+    EPOCH_NEW_YEAR = (datetime.datetime(2020, 12, 31, 23, 59, 50) - datetime.datetime(1970, 1, 1)).total_seconds()     # second 10 is 1 January 2021, 00:00:00.000
+    E0 = [EPOCH_DEFAULT]
 
     def stamp(sec):
-        d = datetime.datetime(1970, 1, 1) + datetime.timedelta(seconds=EPOCH0 + sec)
+        d = datetime.datetime(1970, 1, 1) + datetime.timedelta(seconds=E0[0] + sec)
         return OT(d.year, d.month, d.day, d.hour, d.minute, d.second, int(round(d.microsecond / 1000.0)))
 
     def secs(ts):
         f = ts.fields
-        d = datetime.datetime(int(f['year']), int(f['month']), int(f['day']), int(f['hour']), int(f['min']), int(f['sec']))
-        return (d - datetime.datetime(1970, 1, 1)).total_seconds() + f['ms'] / 1000.0 - EPOCH0
+        try:
+            d = datetime.datetime(int(f['year']), int(f['month']), int(f['day']), int(f['hour']), int(f['min']), int(f['sec']))
+            if not 0 <= f['ms'] < 1000:
+                raise ValueError('ms')
+        except (ValueError, TypeError, OverflowError):
+            # not a date of the calendar (month 13, second 60, negative field ...): no instant at all
+            return float('nan')
+        return (d - datetime.datetime(1970, 1, 1)).total_seconds() + f['ms'] / 1000.0 - E0[0]
     tracks = {
         'irregular sampling': ([(0, 0, 0), (10, 0, 5), (10, 20, 5), (40, 60, 35), (41, 60, 35)], [0.0, 4.0, 5.0, 15.0, 16.5]),
         'repeated position in the middle': ([(0, 0, 0), (6, 8, 10), (6, 8, 10), (12, 16, -4)], [0.0, 2.0, 7.0, 8.0]),
         'two fixes': ([(0, 0, 0), (30, 40, 100)], [0.0, 10.0]),
         'climbing track (3D length differs from 2D length)': ([(0, 0, 0), (3, 4, 12), (6, 8, 0), (9, 12, 40)], [0.0, 1.0, 2.0, 3.0]),
         'two fixes recorded at the same instant': ([(0, 0, 0), (6, 8, 0), (12, 16, 0), (12, 26, 5), (22, 26, 5)], [0.0, 2.0, 2.0, 6.0, 8.0]),
+        'across New Year midnight (second 10 is 1 January, 00:00:00.000)': ([(0, 0, 0), (8, 6, 2), (8, 26, 2), (20, 42, 10), (20, 52, 10)], [0.0, 4.0, 10.0, 16.0, 20.0]),
     }
 
     def build(pts, times):
@@ -565,7 +574,7 @@ def rule_G(ctx):
                                                        dict(case, **{'observations returned': len(got), 'expected': len(want), 'times returned': [round(g_[1], 3) for g_ in got], 'times expected': [round(w_[1], 3) for w_ in want]})))
             return
         for k, ((gp, gt), (wp, wt)) in enumerate(zip(got, want)):
-            if not near(gp, wp) or abs(gt - wt) > 0.0015:
+            if not near(gp, wp) or not abs(gt - wt) <= 0.0015:       # (a timestamp that is no calendar date compares as NaN)
                 found.setdefault((case['mode'], 'value'), ('every returned observation is the linear interpolation (x, y, z and time) between the two original fixes that bracket it',
                                                            dict(case, index=k, returned={'position': list(gp), 'time': round(gt, 4)}, expected={'position': [round(c_, 6) for c_ in wp], 'time': round(wt, 4)})))
                 return
@@ -575,6 +584,7 @@ def rule_G(ctx):
             found.setdefault((case['mode'], 'table'), ('the feature table is reset by resampling', dict(case, **{'features listed': names})))
     TEMP, SPAT = consts['MODE_TEMPORAL'], consts['MODE_SPATIAL']
     for label, (pts, times) in tracks.items():
+        E0[0] = EPOCH_NEW_YEAR if 'New Year' in label else EPOCH_DEFAULT
         dur = times[-1] - times[0]
         # temporal: numeric steps (dividing the duration, not dividing it, longer than it), lists and a reference track
         for step in (dur / 4.0, dur / 3.0 + 0.1, dur, dur * 1.5, 1.0):
@@ -616,6 +626,32 @@ def rule_G(ctx):
             if want is None:
                 continue
             run(label, pts, times, 'every %.4g m along the 2D polyline (length %.4g)' % (ds, S[-1]), lambda ds=ds: ds, SPAT, want)
+    E0[0] = EPOCH_DEFAULT
+    # a step AND a number of points: the step has priority (as documented)
+    for label in ('irregular sampling', 'two fixes'):
+        pts, times = tracks[label]
+        dur = times[-1] - times[0]
+        for step, npts in ((dur / 4.0, 2), (dur / 3.0 + 0.1, 7)):
+            inst = []
+            x = times[0]
+            while x <= times[-1] + 1e-9:
+                inst.append(x)
+                x += step
+            want = [(lerp(pts, times, a), a) for a in inst if times[0] < a <= times[-1] + 1e-9]
+            n_cases += 1
+            t = build(pts, times)
+            case = {'track': label, 'vertices': [list(p_) for p_ in pts], 'times (s)': times, 'request': 'resample(delta=%.4g, mode=temporal, npts=%d): the step has priority' % (step, npts)}
+            try:
+                t.call('resample', step, consts['ALGO_LINEAR'], consts['MODE_TEMPORAL'], npts)
+                got = [(o.position.c, secs(o.timestamp)) for o in t.fields['_Track__POINTS']]
+            except orders.Unsupported as ex:
+                raise shape_error('Track.resample not interpretable: %s' % ex, fr.loc())
+            except (IndexError, KeyError, TypeError, AttributeError, ValueError, ZeroDivisionError, orders.Raised) as ex:
+                found.setdefault(('temporal', 'fails'), ('resampling does not fail', dict(case, exception='%s: %s' % (type(ex).__name__, str(ex)[:160]))))
+                continue
+            if len(got) != len(want) or any(not near(g_[0], w_[0]) or not abs(g_[1] - w_[1]) <= 0.0015 for g_, w_ in zip(got, want)):
+                found.setdefault(('temporal', 'both'), ('when a step and a number of points are both given, the step decides the abscissas',
+                                                        dict(case, **{'times returned': [round(g_[1], 3) for g_ in got], 'times expected': [round(w_[1], 3) for w_ in want]})))
     # a track that carries an 'abs_curv' feature computed for an earlier geometry: the samples follow the CURRENT geometry
     pts, times = tracks['irregular sampling']
     S = [0.0]
